@@ -125,6 +125,11 @@ def buildNode (tbl : List (Clade × Option Clade)) (owns : List (Clade × List N
   | 0, c => (lookupOwn owns c, .nil)
   | fuel+1, c => (lookupOwn owns c, Forest.ofRoots ((childrenOf tbl c).map (buildNode tbl owns fuel)))
 
+/-- `get_tree_from_consensus_graph`: data points that carry no label of a consensus node go to the
+outlier node (clone id -1) -/
+def outliersOf (n : Nat) (owns : List (Clade × List Nat)) : List Nat :=
+  (List.range n).filter fun i => !decide (i ∈ owns.flatMap (·.2))
+
 structure Result where
   forest : DF
   outs : List Nat
@@ -144,8 +149,7 @@ def nest (n : Nat) (m : List Clade) : Except String (DF × List Nat × List (Cla
   if covered.any fun i => decide (n ≤ i) then throw "KeyError: data index outside the data set"
   let roots := (tbl.filter fun e => e.2.isNone).map (·.1)
   let forest := Forest.ofRoots (roots.map (buildNode tbl owns m.length))
-  let outs := (List.range n).filter fun i => !decide (i ∈ covered)
-  pure (forest, outs, owns, tbl)
+  pure (forest, outliersOf n owns, owns, tbl)
 
 /-- `get_consensus_tree` followed by `get_tree_from_consensus_graph` -/
 def run (n : Nat) (trees : List DF) (weights : Option (List Rat)) (θ : Rat) : Except String Result := do
